@@ -27,7 +27,8 @@
 
   Out of fuel is `none`; results are `ok state`, or an error: one of the specification's (`dec e`), `depth`
   (`_stack_error`: `_OP_save` on a full stack), or `stuck` (the destination does not hold what the instruction
-  writes, or the instruction is outside the machine model: interface{} / callbacks / base64 / non-string map keys).
+  writes, or the instruction is outside the machine model: callbacks other than the library's `(*MV).UnmarshalJSON`, `dyn`,
+  base64, float / TextUnmarshaler map keys).
 -/
 import SonicSpec.Model.DirCompile
 import SonicSpec.Model.BindStream
@@ -112,6 +113,16 @@ def skipTo (o : DecOpts) (s : St) (src : Bytes) (tgt : Nat) : StepRes :=
   | some r => .next tgt { s with inp := r }
   | none => .err (.dec .syntax)
 
+/-- the `(*T).UnmarshalJSON` methods of the library (go/harness/types.go), on the text `skip_one` delimits.  MV: `json.Unmarshal`
+    into `struct{ Mv int }`, then `m.V = x.Mv`; an MV value is the struct `(st (i V))` here. -/
+def libUnmarshalJ (n : String) (raw : Bytes) : Option (Except DErr GoVal) :=
+  match n with
+  | "MV" => some (match Bind.decode {} (.st [("Mv", none, .int 64)]) raw with
+    | .ok (.st [x]) => .ok (.st [x])
+    | .ok _ => .error .other
+    | .error e => .error e)
+  | _ => none
+
 /-- store at VP -/
 def St.put (s : St) (v : GoVal) : St := { s with root := setAt s.root s.vp v }
 
@@ -144,6 +155,48 @@ def numOp (o : DecOpts) (T : GoType) (pc : Nat) (s : St) : StepRes :=
 def isNullQuoteLit : Bytes → Option Bytes
   | 110 :: 117 :: 108 :: 108 :: 34 :: r => some r
   | _ => none
+
+/-- `_skip_key_value` (assembler :635) from the opening quote of a key: the key, `:`, the value; then on at `tgt` -/
+def skipKV (o : DecOpts) (s : St) (src : Bytes) (tgt : Nat) : StepRes :=
+  match skipVal o.validateString (skipFuel src) src with
+  | none => .err (.dec .syntax)
+  | some r1 =>
+    match skipWs r1 with
+    | 58 :: r2 =>
+      match skipVal o.validateString (skipFuel (skipWs r2)) (skipWs r2) with
+      | some r3 => .next tgt { s with inp := r3 }
+      | none => .err (.dec .syntax)
+    | _ => .err (.dec .syntax)
+
+/-- the entry of the map at VP for key `k` (mapassign): the one found, or a new zero element; VP moves to it -/
+def mapEntry (s : St) (k : GoVal) (E : GoType) (r : Bytes) (pc : Nat) : StepRes :=
+  match getAt s.root s.vp with
+  | some (.map kvs) =>
+    match kvs.findIdx? fun p => keyEq p.1 k with
+    | some i => .next (pc + 1) { s with inp := r, vp := s.vp ++ [.child i] }
+    | none => .next (pc + 1) { (s.put (.map (kvs ++ [(k, zeroOf E)]))) with inp := r, vp := s.vp ++ [.child kvs.length] }
+  | _ => .err .stuck
+
+/-- the key of an integer-keyed map from its literal: `none` = not an integer of 64 bits, `some none` = outside the kind -/
+def intKeyOf (signed : Bool) (w : Nat) (l : Bytes) : Option (Option GoVal) :=
+  if signed then (bindInt 64 l).map fun v => if inRangeInt w v then some (GoVal.int v) else none
+  else (bindUint 64 l).map fun v => if inRangeUint w v then some (GoVal.uint v) else none
+
+/-- `_OP_map_key_i8 .. u64` (assembler :1579-1665): the key is read as a NUMBER LITERAL in place behind the opening quote
+    (`vsigned` / `vunsigned`; no escapes, no `+`, no leading zeros), the closing quote is matched after it.  What the native
+    parser refuses (not an integer, more than 64 bits) is a saved type error and the whole member is skipped
+    (`check_err` with the target `tgt`); a value outside the narrower kind ends the run (`_range_error`). -/
+def intKeyOp (o : DecOpts) (signed : Bool) (w : Nat) (E : GoType) (tgt pc : Nat) (s : St) : StepRes :=
+  match scanNumber s.inp with
+  | none => skipKV o { s with et := merge s.et (some .mismatch) } (34 :: s.inp) tgt
+  | some (l, r) =>
+    match intKeyOf signed w l with
+    | none => skipKV o { s with et := merge s.et (some .mismatch) } (34 :: s.inp) tgt
+    | some none => .err (.dec .mismatch)
+    | some (some k) =>
+      match r with
+      | 34 :: r' => mapEntry s k E r' pc
+      | _ => .err (.dec .syntax)
 
 /-- position of a field in the resolved list (= its ID in the `FieldMap`) -/
 def fieldPos (fs : List Field) (f : Field) : Option Nat := fs.findIdx? fun g => g.idx == f.idx
@@ -333,6 +386,25 @@ def step (o : DecOpts) (lim : Option Nat) (ins : Instr) (pc : Nat) (s : St) : St
           | some i => .next (pc + 1) { s with inp := r, vp := s.vp ++ [.child i] }
           | none => .next (pc + 1) { (s.put (.map (kvs ++ [(.str key, zeroOf E)]))) with inp := r, vp := s.vp ++ [.child kvs.length] }
         | _ => .err .stuck
+  | .mapKey .i8 (.map _ E) tgt => intKeyOp o true 8 E tgt pc s
+  | .mapKey .i16 (.map _ E) tgt => intKeyOp o true 16 E tgt pc s
+  | .mapKey .i32 (.map _ E) tgt => intKeyOp o true 32 E tgt pc s
+  | .mapKey .i64 (.map _ E) tgt => intKeyOp o true 64 E tgt pc s
+  | .mapKey .u8 (.map _ E) tgt => intKeyOp o false 8 E tgt pc s
+  | .mapKey .u16 (.map _ E) tgt => intKeyOp o false 16 E tgt pc s
+  | .mapKey .u32 (.map _ E) tgt => intKeyOp o false 32 E tgt pc s
+  | .mapKey .u64 (.map _ E) tgt => intKeyOp o false 64 E tgt pc s
+  | .any =>                                                                 -- :1239 the generic decoder (parse, then `toAny`); a number out of range ends the run
+    match getAt s.root s.vp with
+    | none => .err .stuck
+    | some (.any (.ptr _) _) => .err .stuck                                 -- an interface holding a pointer is decoded through the pointer: outside the model
+    | some _ =>
+      match parseR (skipFuel s.inp) s.inp with
+      | none => .err (.dec .syntax)
+      | some (j, r) =>
+        match toAny o j with
+        | (g, none) => .next (pc + 1) { (s.put g) with inp := r }
+        | (_, some e) => .err (.dec e)
   | .recurse T => .call T                                                   -- :1987
   | .unquote =>                                                             -- :1497 a string inside a string (`,string` on a string)
     match s.inp with
@@ -349,7 +421,15 @@ def step (o : DecOpts) (lim : Option Nat) (ins : Instr) (pc : Nat) (s : St) : St
           | some u => .next (pc + 1) { (s.put (.str u)) with inp := t }
     | _ => .err (.dec .syntax)
   | .unsupported _ => .err (.dec .other)                                    -- :1297
-  | _ => .err .stuck            -- any / dyn / bin / emptyBytes / other map keys / callbacks / debug: outside the machine model
+  | .unmarshalP (.ptr (.lib n)) _ =>                                        -- :1870 `skip_one`, then the type's own method on the text
+    match skipVal o.validateString (skipFuel s.inp) s.inp with
+    | none => .err (.dec .syntax)
+    | some r =>
+      match libUnmarshalJ n (s.inp.take (s.inp.length - r.length)) with
+      | some (.ok v) => .next (pc + 1) { (s.put v) with inp := r }
+      | some (.error e) => .err (.dec e)
+      | none => .err .stuck
+  | _ => .err .stuck            -- dyn / bin / emptyBytes / float and TextUnmarshaler map keys / other callbacks / debug: outside the machine model
 
 /-- the decoder's loop with `fuel` instructions; `_OP_recurse` runs the callee's program on the same stack -/
 def run (o : DecOpts) (co : COpts) (lim : Option Nat) : Nat → Program → Nat → St → Option (Except XErr St)
